@@ -49,6 +49,11 @@ def universe():
         ('np.float32(nan)', np.float32('nan')), ('np.float32(1.5)', np.float32(1.5)), ('np.float32(2.5)', np.float32(2.5)), ('np.float16(nan)', np.float16('nan')),
         ('(np.float32(nan),)', (np.float32('nan'),)), ('(np.float32(1.5),)', (np.float32(1.5),)), ('np.int32(1)', np.int32(1)),
         ('3', 3), ('2', 2), ("'ab'", 'ab'), ('(None,)', (None,)), ('[[]]', [[]]), ('timedelta', datetime.timedelta(1)),
+        # ints beyond the float mantissa next to the float they both round to: the order must stay transitive whatever precision cmp works in
+        ('2**53', 2 ** 53), ('2**53+1', 2 ** 53 + 1), ('2.0**53', 2.0 ** 53), ('(2**53+1,)', (2 ** 53 + 1,)), ('(2.0**53,)', (2.0 ** 53,)),
+        # dicts whose keys are equal under cmp without being the same dictionary key (NaN objects, a date and the datetime at its midnight, big ints)
+        ('{nan#1:1}', {nan1: 1}), ('{nan#2:1}', {nan2: 1}), ('{nan#2:2}', {nan2: 2}), ('{date:1}', {datetime.date(2000, 1, 1): 1}), ('{dt1:1}', {_DT1: 1}),
+        ('{2**53:1}', {2 ** 53: 1}), ('{2**53+1:1}', {2 ** 53 + 1: 1}), ('{1:0}', {1: 0}), ('{1.0:0}', {1.0: 0}),
     ]
     return U
 
